@@ -58,11 +58,13 @@ func Run(run *kernel.Run, p Params) {
 		focus = append(focus, kinds[t.Choose("cfg", "focus", len(kinds))])
 	}
 	focusObj := [3]int{t.Choose("cfg", "fobjA", 4), t.Choose("cfg", "fobjB", 4), t.Choose("cfg", "fobjC", 4)}
-	nTasks := 2 + t.Choose("cfg", "ntasks", maxTasks-1)
+	// depth 2 (thorough tier): up to 8 callers x 8 operations
+	mt, mo := maxTasks+2*(kernel.Depth-1), maxOps+2*(kernel.Depth-1)
+	nTasks := 2 + t.Choose("cfg", "ntasks", mt-1)
 	ops := make([][]*Op, nTasks)
 	for ti := 0; ti < nTasks; ti++ {
 		st := fmt.Sprintf("t%d.ops", ti)
-		for len(ops[ti]) < maxOps && (t.Choose(st, "more", 4) != 0 || len(ops[ti]) == 0) {
+		for len(ops[ti]) < mo && (t.Choose(st, "more", 4+2*(kernel.Depth-1)) != 0 || len(ops[ti]) == 0) {
 			o := &Op{}
 			if t.Chance(st, "offfocus", 1, 4) {
 				o.Kind = kinds[t.Choose(st, "kind", len(kinds))]
